@@ -362,7 +362,7 @@ fn family_storms(g: &mut Gen<'_>, targets: &[(String, Vec<u8>)], n: usize, rng: 
         g.push(&format!("mutation-storm:{label}"), m);
     }
     // quadratic amplification: many string-array entries aliasing one long unterminated-ish region
-    for (nent, slen) in [(64usize, 4096usize), (256, 8192), (512, 16384)] {
+    for (nent, slen) in [(64usize, 4096usize), (256, 8192), (512, 16384), (4096, 65536)] {
         let mut store = vec![b'a'; slen];
         store.push(0);
         let entries: Vec<RawEntry> = (0..nent).map(|i| RawEntry { tag: ACCESSOR_TAGS[i % ACCESSOR_TAGS.len()], typ: if i % 2 == 0 { 8 } else { 6 }, offset: 0, count: 1 }).collect();
@@ -482,6 +482,33 @@ fn family_cpio(g: &mut Gen<'_>, rng: &mut Rng, n_random: usize) {
     g.push("hostile-cpio", package_with_files("cpio", &big, &a, None, true));
 }
 
+/// signature tags holding an OpenPGP packet header that announces a huge body (the packet parser of
+/// the pgp dependency allocates the announced length before reading)
+fn family_pgp(g: &mut Gen<'_>) {
+    use base64::Engine;
+    let (he, hs) = layout_with_region(tag::HDR_REGION, &[(tag::NAME, Val::str("pgp")), (tag::VERSION, Val::str("1")), (tag::RELEASE, Val::str("1")), (tag::ARCH, Val::str("noarch"))]);
+    let hdr = enc_header(&he, &hs);
+    for len in [1u32 << 20, 64 << 20, 512 << 20, (1 << 30) - 1, 1 << 30, u32::MAX] {
+        // new-format packet, tag 2 (signature), five-octet length
+        let mut pkt = vec![0xC2u8, 0xFF];
+        pkt.extend_from_slice(&len.to_be_bytes());
+        pkt.extend_from_slice(&[4, 0, 1, 8, 0, 0]);
+        // old-format packet, tag 2, four-octet length
+        let mut old = vec![0x8Au8];
+        old.extend_from_slice(&len.to_be_bytes());
+        old.extend_from_slice(&[4, 0, 1, 8, 0, 0]);
+        for p in [pkt, old] {
+            for t in [tag::SIG_RSA, tag::SIG_DSA, tag::SIG_PGP] {
+                let (se, ss) = layout_with_region(tag::SIG_REGION, &[(t, Val::Bin(p.clone()))]);
+                g.push("pgp-packet-length", enc_package(&enc_lead("pgp"), &enc_header(&se, &ss), &hdr, b""));
+            }
+            let b64 = base64::engine::general_purpose::STANDARD.encode(&p).into_bytes();
+            let (se, ss) = layout_with_region(tag::SIG_REGION, &[(tag::SIG_OPENPGP, Val::StrArray(vec![b64]))]);
+            g.push("pgp-packet-length", enc_package(&enc_lead("pgp"), &enc_header(&se, &ss), &hdr, b""));
+        }
+    }
+}
+
 fn family_garbage(g: &mut Gen<'_>, rng: &mut Rng, n: usize) {
     g.push("garbage", Vec::new());
     g.push("garbage", LEAD_MAGIC.to_vec());
@@ -504,6 +531,22 @@ fn class_key(profile: &str, op: &str, out: &Outcome) -> String {
     let _ = profile;
     let _ = op;
     out.site()
+}
+
+/// total bytes the index entries of both headers decode to, relative to the bytes present: entries
+/// may alias one store region, each is decoded into its own owned value
+fn aliasing_ratio(bytes: &[u8]) -> f64 {
+    let Ok(p) = walk_package_opt(bytes, true) else { return 0.0 };
+    let mut total = 0usize;
+    for h in [&p.sig, &p.hdr] {
+        let store = h.store(bytes);
+        for e in &h.entries {
+            if let Ok(n) = data_len(store, e) {
+                total += n;
+            }
+        }
+    }
+    total as f64 / bytes.len().max(1) as f64
 }
 
 fn run(ctx: &Ctx, rep: &Report) {
@@ -532,6 +575,7 @@ fn run(ctx: &Ctx, rep: &Report) {
     family_boundaries(&mut g, thorough);
     family_cpio(&mut g, &mut rng, ctx.tier.pick(3000, 60_000));
     family_garbage(&mut g, &mut rng, ctx.tier.pick(2000, 50_000));
+    family_pgp(&mut g);
     family_storms(&mut g, &targets, ctx.tier.pick(20_000, 400_000), &mut rng);
     family_mutations(&mut g, &targets, thorough, &mut rng);
     g.flush();
@@ -597,8 +641,10 @@ fn process_batch(g: &mut Gen<'_>) {
                     *local.entry(format!("{profile}.panics")).or_insert(0) += 1;
                 }
                 Outcome::Alloc { request, live, site } => {
+                    // many entries aliasing one large region: memory is (entries x region), a known finding
+                    let key = if aliasing_ratio(bytes) > 64.0 { "alloc-budget:overlapping-entries".to_string() } else { out.site() };
                     rep.violation(
-                        out.site(),
+                        key,
                         format!("allocation out of proportion ({profile}) [{fam}] in {site}: a {}-byte input asks for {} bytes (live {} bytes, budget {})", bytes.len(), request, live, default_budget(bytes.len())),
                         w(),
                         bytes.len() as u64,
